@@ -9,6 +9,7 @@ past never decreases along the queried block's chain (implied by the timestamp r
 header obeys, see `timeRule_implies_mtpMono`).
 -/
 import BV.C14.Lemmas
+import BV.C14.WarnLemmas
 import BV.C14.MtpMono
 import BV.C14.Shipped
 import BV.Generated.C14
@@ -163,6 +164,34 @@ theorem lockedIn_step (net : Net) (d : Dep) (b : Node) :
     step net d .lockedIn b = (if d.minHeight = 0 ∨ d.minHeight ≤ b.length then .active else .lockedIn) := by
   simp only [step, eligible]
   by_cases h0 : d.minHeight = 0 <;> by_cases h1 : d.minHeight ≤ b.length <;> simp [h0, h1]
+
+/-! ### the unknown-rules warning path and the whole chain instance -/
+
+/-- `thresholdState` with the unknown-rules bit checker (its `Condition` calls
+    `calcNextBlockVersion(parent)` through the deployment caches) answers the warning Spec and keeps
+    its own cache and the deployment caches sound. -/
+theorem warning_state_eq_spec (net : Net) (deps : List Dep) (bit : Nat) (c : Cache) (cs : ChainSt)
+    (n : Node) (hwf : Wf net n) (hc : WarnLemmas.CacheOkW net deps bit c)
+    (hi : WarnLemmas.Inv net deps cs) :
+    ∃ c' cs', Warn.thresholdState net bit c cs n = (c', cs', some (Warn.state net deps bit n)) ∧
+      WarnLemmas.CacheOkW net deps bit c' ∧ WarnLemmas.Inv net deps cs' :=
+  WarnLemmas.thresholdState_ok net deps bit c cs n hwf.1 hwf.2 hc hi
+
+/-- Every history of deployment-state, next-version and warning-state queries on one fresh chain
+    instance (all caches shared as in `BlockChain`) is answered exactly as the Spec answers. -/
+theorem instance_history_eq_spec (net : Net) (deps : List Dep) (qs : List Warn.Q)
+    (hq : ∀ q ∈ qs, Wf net q.node) :
+    (Warn.runQs net (Warn.freshInst deps) qs).2 = qs.map (Warn.specAnswer net deps) :=
+  (WarnLemmas.runQs_ok net deps qs _ hq (WarnLemmas.instOk_fresh net deps)).1
+
+/-- …hence no answer depends on what was asked before, warnings included. -/
+theorem instance_query_order_independent (net : Net) (deps : List Dep) (qs₁ qs₂ : List Warn.Q)
+    (q : Warn.Q) (h₁ : ∀ x ∈ qs₁, Wf net x.node) (h₂ : ∀ x ∈ qs₂, Wf net x.node) (hq : Wf net q.node) :
+    (Warn.runQ net (Warn.runQs net (Warn.freshInst deps) qs₁).1 q).2 =
+      (Warn.runQ net (Warn.runQs net (Warn.freshInst deps) qs₂).1 q).2 := by
+  have a₁ := WarnLemmas.runQs_ok net deps qs₁ _ h₁ (WarnLemmas.instOk_fresh net deps)
+  have a₂ := WarnLemmas.runQs_ok net deps qs₂ _ h₂ (WarnLemmas.instOk_fresh net deps)
+  rw [(WarnLemmas.runQ_ok net deps _ q hq a₁.2).1, (WarnLemmas.runQ_ok net deps _ q hq a₂.2).1]
 
 /-! ### pins: constants and shipped tables regenerated from /repo -/
 open Generated.C14 in
